@@ -11,15 +11,28 @@ Section Conc.
   Variables (shared act ares : Type).
   Variable sem : act -> shared -> shared * ares.     (* one atomic action *)
 
+  (* A second, separate component of the cache object: its statistics counters.  Programs of
+     accesses to it (each access is one micro-step; a `+= 1` is a read followed by a write) may
+     appear anywhere -- also outside the lock, as in LRI.get -- but by construction nothing else
+     in an operation depends on what they read. *)
+  Variables (stats sact sres : Type).
+  Variable ssem : sact -> stats -> stats * sres.
+
+  Inductive sprog :=
+  | SDone
+  | SAct (a : sact) (k : sres -> sprog).
+
   Inductive prog (A : Type) :=
   | Ret (a : A)
   | Acq (k : prog A)
   | Rel (k : prog A)
-  | Act (a : act) (k : ares -> prog A).
+  | Act (a : act) (k : ares -> prog A)
+  | Stat (sp : sprog) (k : prog A).
   Arguments Ret {A} a.
   Arguments Acq {A} k.
   Arguments Rel {A} k.
   Arguments Act {A} a k.
+  Arguments Stat {A} sp k.
 
   Fixpoint bind {A B} (p : prog A) (f : A -> prog B) : prog B :=
     match p with
@@ -27,6 +40,7 @@ Section Conc.
     | Acq k => Acq (bind k f)
     | Rel k => Rel (bind k f)
     | Act a k => Act a (fun r => bind (k r) f)
+    | Stat sp k => Stat sp (bind k f)
     end.
 
   (* `with self._lock: body` (exceptions are values, so the release always runs) *)
@@ -40,6 +54,7 @@ Section Conc.
     | Acq k => arun k sh
     | Rel k => arun k sh
     | Act a k => let '(sh', r) := sem a sh in arun (k r) sh'
+    | Stat _ k => arun k sh          (* the statistics are not part of the cache's contents *)
     end.
 
   (* ---- threads and the machine ------------------------------------------- *)
@@ -55,6 +70,7 @@ Section Conc.
 
   Record mstate := mkState {
     m_sh : shared;
+    m_st : stats;
     m_lock : option (nat * nat);  (* owner thread, depth >= 1 *)
     m_thr : nat -> thread
   }.
@@ -63,7 +79,7 @@ Section Conc.
     fun u => if Nat.eqb u t then x else f u.
 
   Definition set_thr (s : mstate) (t : nat) (th : thread) : mstate :=
-    mkState (m_sh s) (m_lock s) (upd (m_thr s) t th).
+    mkState (m_sh s) (m_st s) (m_lock s) (upd (m_thr s) t th).
 
   (* one micro-step of thread t; None = t cannot move now *)
   Definition step (t : nat) (s : mstate) : option mstate :=
@@ -76,7 +92,7 @@ Section Conc.
         end
     | Some (Ret a) => Some (set_thr s t (mkThread None (t_todo th) (t_done th ++ [a])))
     | Some (Acq k) =>
-        let go d := Some (mkState (m_sh s) (Some (t, d))
+        let go d := Some (mkState (m_sh s) (m_st s) (Some (t, d))
                                   (upd (m_thr s) t (mkThread (Some k) (t_todo th) (t_done th)))) in
         match m_lock s with
         | None => go 1
@@ -86,7 +102,7 @@ Section Conc.
         match m_lock s with
         | Some (o, d) =>
             if Nat.eqb o t then
-              Some (mkState (m_sh s)
+              Some (mkState (m_sh s) (m_st s)
                             (match d with S (S d') => Some (t, S d') | _ => None end)
                             (upd (m_thr s) t (mkThread (Some k) (t_todo th) (t_done th))))
             else None
@@ -94,7 +110,12 @@ Section Conc.
         end
     | Some (Act a k) =>
         let '(sh', r) := sem a (m_sh s) in
-        Some (mkState sh' (m_lock s) (upd (m_thr s) t (mkThread (Some (k r)) (t_todo th) (t_done th))))
+        Some (mkState sh' (m_st s) (m_lock s) (upd (m_thr s) t (mkThread (Some (k r)) (t_todo th) (t_done th))))
+    | Some (Stat SDone k) => Some (set_thr s t (mkThread (Some k) (t_todo th) (t_done th)))
+    | Some (Stat (SAct a f) k) =>
+        let '(st', r) := ssem a (m_st s) in
+        Some (mkState (m_sh s) st' (m_lock s)
+                      (upd (m_thr s) t (mkThread (Some (Stat (f r) k)) (t_todo th) (t_done th))))
     end.
 
   Definition step_or_skip (s : mstate) (t : nat) : mstate :=
@@ -102,8 +123,8 @@ Section Conc.
 
   Definition run (sched : list nat) (s : mstate) : mstate := fold_left step_or_skip sched s.
 
-  Definition init_state (sh : shared) (progs : nat -> list OP) : mstate :=
-    mkState sh None (fun t => mkThread None (progs t) []).
+  Definition init_state (sh : shared) (st : stats) (progs : nat -> list OP) : mstate :=
+    mkState sh st None (fun t => mkThread None (progs t) []).
 
   Definition finished (s : mstate) : Prop :=
     forall t, t_cur (m_thr s t) = None /\ t_todo (m_thr s t) = [].
@@ -126,25 +147,29 @@ Section Conc.
     fold_left serial_step order (sh, progs, fun _ => []).
 End Conc.
 
-Arguments Ret {act ares A} a.
-Arguments Acq {act ares A} k.
-Arguments Rel {act ares A} k.
-Arguments Act {act ares A} a k.
-Arguments bind {act ares A B} p f.
-Arguments with_lock {act ares A} b body.
-Arguments arun {shared act ares} sem {A} p sh.
-Arguments mkThread {act ares OP RV}.
-Arguments t_cur {act ares OP RV}.
-Arguments t_todo {act ares OP RV}.
-Arguments t_done {act ares OP RV}.
-Arguments mkState {shared act ares OP RV}.
-Arguments m_sh {shared act ares OP RV}.
-Arguments m_lock {shared act ares OP RV}.
-Arguments m_thr {shared act ares OP RV}.
-Arguments step {shared act ares} sem {OP RV} compile reentrant_lock t s.
-Arguments run {shared act ares} sem {OP RV} compile reentrant_lock sched s.
-Arguments init_state {shared act ares OP RV} sh progs.
-Arguments finished {shared act ares OP RV} s.
-Arguments serial_step {shared act ares} sem {OP RV} compile s t.
-Arguments serial {shared act ares} sem {OP RV} compile order sh progs.
+Arguments SDone {sact sres}.
+Arguments SAct {sact sres} a k.
+Arguments Ret {act ares sact sres A} a.
+Arguments Acq {act ares sact sres A} k.
+Arguments Rel {act ares sact sres A} k.
+Arguments Act {act ares sact sres A} a k.
+Arguments Stat {act ares sact sres A} sp k.
+Arguments bind {act ares sact sres A B} p f.
+Arguments with_lock {act ares sact sres A} b body.
+Arguments arun {shared act ares} sem {sact sres A} p sh.
+Arguments mkThread {act ares sact sres OP RV}.
+Arguments t_cur {act ares sact sres OP RV}.
+Arguments t_todo {act ares sact sres OP RV}.
+Arguments t_done {act ares sact sres OP RV}.
+Arguments mkState {shared act ares stats sact sres OP RV}.
+Arguments m_sh {shared act ares stats sact sres OP RV}.
+Arguments m_st {shared act ares stats sact sres OP RV}.
+Arguments m_lock {shared act ares stats sact sres OP RV}.
+Arguments m_thr {shared act ares stats sact sres OP RV}.
+Arguments step {shared act ares} sem {stats sact sres} ssem {OP RV} compile reentrant_lock t s.
+Arguments run {shared act ares} sem {stats sact sres} ssem {OP RV} compile reentrant_lock sched s.
+Arguments init_state {shared act ares stats sact sres OP RV} sh st progs.
+Arguments finished {shared act ares stats sact sres OP RV} s.
+Arguments serial_step {shared act ares} sem {sact sres OP RV} compile s t.
+Arguments serial {shared act ares} sem {sact sres OP RV} compile order sh progs.
 Arguments upd {X} f t x.
